@@ -524,7 +524,7 @@ func Main(t *testing.T, units ...Unit) {
 			// The replay must reproduce in a fresh process. If the minimised tape alone does not (the
 			// violation needs state left behind by earlier runs of this process), fall back to the
 			// unminimised tape preceded by this worker's earlier runs.
-			if i > 0 && os.Getenv("VERIF_NO_FRESH_REPLAY") == "" && !freshReplayReproduces(path) {
+			if os.Getenv("VERIF_NO_FRESH_REPLAY") == "" && !freshReplayReproduces(path) {
 				minimal := rf
 				rf.Tape, rf.Rule, rf.Sig, rf.Message, rf.Scenario, rf.LogTail = orig, r.viol.Rule, r.viol.Sig, r.viol.Msg, r.scenario, r.log
 				rf.LogHash = fmt.Sprintf("%016x", r.LogHash())
